@@ -727,6 +727,13 @@ func RunCache(sc *Scenario) *CacheOut {
 		case "dir":
 			label = 0
 			_ = os.Mkdir(cache, 0o755)
+		case "fulldisk":
+			// the cache cannot be read (nothing but zeros) and cannot be written:
+			// every write fails with "no space left on device"
+			label = 0
+			if err := os.Symlink("/dev/full", cache); err != nil {
+				return true
+			}
 		default:
 			if err := os.WriteFile(cache, data, 0o644); err != nil {
 				out.violate("harness", err.Error())
@@ -776,7 +783,7 @@ func RunCache(sc *Scenario) *CacheOut {
 				out.violate("damaged_cache_wrong_book", desc+fmt.Sprintf(": resulting book has %d entries, source-built book %d", len(countsOf(b)), len(want)))
 				return true
 			}
-			if rep == 0 && mode == "dir" {
+			if rep == 0 && (mode == "dir" || mode == "fulldisk") {
 				_ = os.RemoveAll(cache)
 			}
 		}
@@ -858,6 +865,13 @@ func RunCache(sc *Scenario) *CacheOut {
 			label = 0
 			if !try("directory", 0, nil, "dir") {
 				return out
+			}
+		case "fulldisk":
+			label = 0
+			if _, err := os.Stat("/dev/full"); err == nil {
+				if !try("disk_full", 0, nil, "fulldisk") {
+					return out
+				}
 			}
 		case "append":
 			label = 0
